@@ -315,9 +315,10 @@ def polytomy_cases(run, rnd):
             # pattern numbers exceeds 63 bits; columns that differ only in the FIRST children must stay distinct
             for k in range(ntips):
                 cols[rnd.randrange(ncols)][k] = "-"
-            for c in range(0, ncols, 3):
-                cols[c] = list(cols[(c + 1) % ncols])
-                cols[c][rnd.randrange(4)] = rnd.choice([x for x in alpha if x != cols[c][0]])
+            for c in range(0, ncols - 1, 3):
+                cols[c] = list(cols[c + 1])
+                k = (c // 3) % 3            # the pair differs in child 0, 1 or 2 only
+                cols[c + 1][k], cols[c][k] = "A", "G"
         seqs = {t: "".join(c[i] for c in cols) for i, t in enumerate(tips)}
         aln = make_aligned_seqs(seqs, moltype="dna")
         params = {"kappa": 2.5} if model == "HKY85" else {"kappa": 2.5, "omega": 0.6}
